@@ -27,10 +27,15 @@ pub struct Config {
     pub conn_limit: u32,
     pub mem_limit: u64,
     pub port: u16,
+    /// started with the port only: every other setting is the documented default
+    pub defaults: bool,
 }
 
 impl Config {
     pub fn args(&self) -> Vec<String> {
+        if self.defaults {
+            return vec!["memcrsd".into(), "-p".into(), self.port.to_string()];
+        }
         vec![
             "memcrsd".into(),
             "-p".into(),
@@ -50,6 +55,9 @@ impl Config {
         ]
     }
     pub fn label(&self) -> String {
+        if self.defaults {
+            return "defaults".to_string();
+        }
         format!("{}-t{}-{}-i{}-c{}-m{}", self.runtime, self.threads, self.policy, self.item_size, self.conn_limit, self.mem_limit)
     }
 }
@@ -94,9 +102,21 @@ fn exchange(sock: &mut TcpStream, bytes: &[u8], sentinel: u32, wait: Duration) -
 }
 
 pub fn start_child(cfg: &Config) -> Option<Child> {
-    let exe = std::env::current_exe().unwrap();
-    let mut cmd = Command::new(exe);
-    cmd.arg("cfg-child").args(cfg.args()).stdout(Stdio::null()).stderr(Stdio::null());
+    // the real binary (src/bin/memcrsd.rs: its main starts the clock and the server) when the
+    // check has built it; otherwise this harness' own copy of that main
+    let mut cmd = match std::env::var("VERIF_MEMCRSD") {
+        Ok(p) if std::path::Path::new(&p).exists() => {
+            let mut c = Command::new(p);
+            c.args(&cfg.args()[1..]);
+            c
+        }
+        _ => {
+            let mut c = Command::new(std::env::current_exe().unwrap());
+            c.arg("cfg-child").args(cfg.args());
+            c
+        }
+    };
+    cmd.stdout(Stdio::null()).stderr(Stdio::null());
     let child = cmd.spawn().ok()?;
     let addr: SocketAddr = format!("127.0.0.1:{}", cfg.port).parse().unwrap();
     let t0 = Instant::now();
@@ -166,6 +186,27 @@ pub fn run_config(cfg: &Config, seed: u64, steps: usize, trace: &mut String, obs
             }
             Ev::Eof(_) | Ev::Reset(_) | Ev::Idle(_) | Ev::Tick(_) | Ev::Dump => {}
         }
+    }
+    // 1b. the configured item size limit is the one enforced: a body of exactly that size is
+    // stored, one byte more is refused (and skipped), whatever the generated program happened
+    // to send
+    {
+        let key = b"limitprobe";
+        let at = cfg.item_size as usize - 8 - key.len();
+        let mut b = crate::gen::set_like(op::SET, key, &vec![b'L'; at], 5, 0).bytes();
+        b.extend_from_slice(&crate::gen::set_like(op::SET, key, &vec![b'M'; at + 1], 6, 0).bytes());
+        b.extend_from_slice(&Req::new(op::GET).key(key).bytes());
+        sentinel += 1;
+        let mut all = b.clone();
+        all.extend_from_slice(&Req::new(op::NOOP).opaque(sentinel).bytes());
+        let (rs, closed) = exchange(&mut sock, &b, sentinel, Duration::from_secs(10));
+        let _ = writeln!(trace, "C {} {}", conn_id, hex(&all));
+        let _ = writeln!(trace, "G {}", conn_id);
+        for r in &rs {
+            let _ = writeln!(obs, "R {}", hex(r));
+        }
+        let answered = rs.last().map(|r| parse_resp(r).map(|(f, _)| f.opaque == sentinel).unwrap_or(false)).unwrap_or(false);
+        let _ = writeln!(obs, "S {} {}", conn_id, if closed || !answered { 1 } else { 0 });
     }
     drop(sock);
     std::thread::sleep(Duration::from_millis(50));
@@ -329,7 +370,14 @@ pub fn configs(seed: u64, n: usize, base_port: u16) -> Vec<Config> {
         };
         // a memory limit small enough to probe, whenever the generated program cannot come near it
         let mem_limit = if policy == "random" && item_size <= 4096 { mems[i % mems.len()] } else if policy == "random" && item_size <= 65536 { 1 << 20 } else { 64 << 20 };
-        out.push(Config { runtime, threads, policy, item_size, conn_limit, mem_limit, port: base_port + i as u16 });
+        if i == 6 {
+            // no setting but the port: current-thread runtime on every physical core, no eviction,
+            // 1 MiB items, 1024 connections (the defaults the command line documents)
+            out.push(Config { runtime: "current-thread", threads: 0, policy: "none", item_size: 1 << 20, conn_limit: 1024, mem_limit: 64 << 20,
+                              port: base_port + i as u16, defaults: true });
+            continue;
+        }
+        out.push(Config { runtime, threads, policy, item_size, conn_limit, mem_limit, port: base_port + i as u16, defaults: false });
     }
     out
 }
